@@ -12,6 +12,7 @@ import numpy as np
 from ..ref import Graph
 
 LEVEL = "exploration"
+TECHNIQUE = 'runtime monitoring: per-item invariant monitor on generated datasets (reference BFS + re-implemented endpoint-option semantics); pool-size / maxtasksperchild sweep with injected delays at a probe inside forked workers and an offline check of the recorded task->worker event log'
 RULE = ("MazeDataset.generate / from_config over generator x kwargs (the 8 DEFAULT_GENERATORS, gen_prim, constrained variants) x "
         "grid 2..8,12 x n_mazes {0,1,3,8,32} x seeds x endpoint-option sets (none; allowed start/end lists of size 1,2,many incl. "
         "cells outside the component; dead-end flags; endpoints_not_equal; combinations), serially and in parallel with processes "
